@@ -489,11 +489,22 @@ static void runTbRepro(const TbCase& c, Ctx& ctx)
   if (!d.empty()) { ctx.fail("repro:" + api + (c.cond ? ":cond" : ":noncond"), "same call twice differs: " + d); return; }
   if (anyNaN(a)) { ctx.fail("nan:" + api, "NaN in the simulated values"); return; }
   // sensitivity: another seed / another rank differ at some target that is not a datum
-  std::vector<int> rows = freeTargets(c);
-  if (rows.empty()) { ctx.label("no-free-target"); return; }
+  // (targets whose kriging system could not be built - empty moving neighbourhood with a drift - are undefined (TEST)
+  //  for every seed; point targets of index < ndata are left out because of the recorded defect of
+  //  _updateData2ToTarget, which tb_cond reports: they receive the value of the datum of the same index)
   ctx.at(api + ":seed2");
   int e3 = callTb(c, c.seed2, o);
   if (e3 != 0) { ctx.fail("error:" + api, fmt("the call returned error %d with the second seed", e3)); return; }
+  std::vector<int> rows;
+  for (int r : freeTargets(c))
+  {
+    if (!c.T.grid && c.cond && r < (int)c.place.size()) continue;
+    bool def = true;
+    for (auto& col : a) def = def && !isNA(col[(size_t)r]);
+    for (auto& col : o) def = def && !isNA(col[(size_t)r]);
+    if (def) rows.push_back(r);
+  }
+  if (rows.empty()) { ctx.label("no-free-target"); return; }
   for (size_t k = 0; k < a.size(); k++)
     if (!colsDifferAt(a[k], o[k], rows))
     { ctx.fail("seed-insensitive:" + api, fmt("column %d identical for seeds %d and %d", (int)k, c.seed, c.seed2)); return; }
@@ -598,6 +609,7 @@ static FftCase genFft()
   FftCase c;
   int ndim = G::pick<int>({1, 2, 2, 2, 3});
   c.T = genTargets(ndim, ndim == 3 ? 216 : 400, 1, true);
+  for (auto& v : c.T.nx) v = std::max(v, 2); // simfft does not return on a grid with a single node along one axis (see report)
   double dxmax = 0;
   for (double d : c.T.dx) dxmax = std::max(dxmax, d);
   int ns = G::i(1, 2);
